@@ -267,4 +267,54 @@ theorem C14_last_field_frame (fs : List Ty) (last : Ty) (op : Op) (s : Slice) (o
       · rw [List.drop_append_of_le_length (by omega), List.drop_of_length_le (by omega), List.nil_append]
     | err e => rw [hi] at h; simp at h
     | fault f => rw [hi] at h; simp at h
+/-- **C14 (operations on the last field of an enum's current variant).** The same for `if let …Mut::V { tail, .. } = msg.as_mut() { tail.push(..) }`:
+the tag, the variant's sized fields (everything before the field) and everything behind the enum's own (floored) payload are as
+before, the buffer keeps its length — provided the nested operation keeps the length of the field's bytes; on a variant without an
+unsized last field nothing at all changes. -/
+theorem C14_last_variant_field_frame (tag : LenTy) (vs : List (List Ty)) (op : Op) (s : Slice) (out : OpOut) (t : Nat)
+    (ht : tag.readU s = .ok t)
+    (h : applyOp (.last op) (.uenum tag vs) s = .ok out)
+    (hkeep : ∀ lt o, (vs.getD t []).getLast? = some lt →
+      applyOp op lt ⟨s.addr + ceilMul tag.size (max tag.align (alignLL (dictLL vs))) + lastPos ((dictLL vs).getD t []) 0,
+        ((s.bytes.drop (ceilMul tag.size (max tag.align (alignLL (dictLL vs))))).take
+          (floorMul (s.len - ceilMul tag.size (max tag.align (alignLL (dictLL vs)))) (max tag.align (alignLL (dictLL vs))))).drop
+            (lastPos ((dictLL vs).getD t []) 0)⟩ = .ok o →
+      o.bytes.length = floorMul (s.len - ceilMul tag.size (max tag.align (alignLL (dictLL vs)))) (max tag.align (alignLL (dictLL vs))) -
+        lastPos ((dictLL vs).getD t []) 0) :
+    out.bytes.length = s.bytes.length ∧
+    out.bytes.take (ceilMul tag.size (max tag.align (alignLL (dictLL vs))) + lastPos ((dictLL vs).getD t []) 0) =
+      s.bytes.take (ceilMul tag.size (max tag.align (alignLL (dictLL vs))) + lastPos ((dictLL vs).getD t []) 0) ∧
+    out.bytes.drop (ceilMul tag.size (max tag.align (alignLL (dictLL vs))) +
+        floorMul (s.len - ceilMul tag.size (max tag.align (alignLL (dictLL vs)))) (max tag.align (alignLL (dictLL vs)))) =
+      s.bytes.drop (ceilMul tag.size (max tag.align (alignLL (dictLL vs))) +
+        floorMul (s.len - ceilMul tag.size (max tag.align (alignLL (dictLL vs)))) (max tag.align (alignLL (dictLL vs)))) := by
+  simp only [applyOp, ht, Res.bind_ok] at h
+  generalize hd : ceilMul tag.size (max tag.align (alignLL (dictLL vs))) = dOff at *
+  generalize hn : floorMul (s.len - dOff) (max tag.align (alignLL (dictLL vs))) = n at *
+  generalize hp : lastPos ((dictLL vs).getD t []) 0 = lpos at *
+  have hnle : n ≤ s.len - dOff := by rw [← hn]; exact floorMul_le _ _
+  split at h
+  · cases h; exact ⟨rfl, rfl, rfl⟩
+  · rename_i lt hlast
+    split at h
+    · cases h; exact ⟨rfl, rfl, rfl⟩
+    · split at h
+      · cases h
+      · split at h
+        · cases h
+        · rename_i hroom hle
+          cases hi : applyOp op lt ⟨s.addr + dOff + lpos, ((s.bytes.drop dOff).take n).drop lpos⟩ with
+          | ok o =>
+            rw [hi, Res.bind_ok] at h
+            cases h
+            have hl := hkeep lt o hlast hi
+            have hsl : s.len = s.bytes.length := rfl
+            have hpre : (s.bytes.take (dOff + lpos)).length = dOff + lpos := by rw [List.length_take]; omega
+            have hmid : (s.bytes.take (dOff + lpos) ++ o.bytes).length = dOff + n := by rw [List.length_append, hpre, hl]; omega
+            refine ⟨?_, ?_, ?_⟩
+            · simp only [List.length_append, List.length_drop, hpre, hl]; omega
+            · rw [List.append_assoc, List.take_append_of_le_length (by omega), List.take_of_length_le (by omega)]
+            · rw [List.drop_append_of_le_length (by omega), List.drop_of_length_le (by omega), List.nil_append]
+          | err e => rw [hi] at h; simp at h
+          | fault f => rw [hi] at h; simp at h
 end FV.Props
